@@ -51,12 +51,20 @@ fn __verif_n_c14_known_inputs() {
     let mut names: Vec<String> = std::fs::read_dir(dir).map(|d| d.filter_map(|e| e.ok()).map(|e| e.file_name().to_string_lossy().to_string()).filter(|n| n.ends_with(".sierra")).collect()).unwrap_or_default();
     names.sort();
     let mut ok = 0;
-    for n in &names {
+    // every input in its own big-stack thread (32768-cell programs recurse deeply in the parser),
+    // all at once, and with a time limit: C14 also says "never hang" (the thread of an input
+    // that does not return is left behind; it ends with the test process)
+    let limit = std::time::Duration::from_secs(150);
+    let rxs: Vec<_> = names.iter().map(|n| {
         let src = std::fs::read_to_string(format!("{dir}/{n}")).unwrap_or_default();
-        // run in a big-stack thread: 32768-cell programs recurse deeply in the parser
-        let h = std::thread::Builder::new().stack_size(256 << 20).spawn(move || run_pipeline(&src)).unwrap();
-        match h.join().unwrap_or_else(|_| Err("panic (thread)".into())) {
-            Ok(_) => ok += 1,
+        let (tx, rx) = std::sync::mpsc::channel();
+        std::thread::Builder::new().stack_size(256 << 20).spawn(move || { let _ = tx.send(run_pipeline(&src)); }).unwrap();
+        rx
+    }).collect();
+    let t0 = std::time::Instant::now();
+    for (n, rx) in names.iter().zip(rxs) {
+        match rx.recv_timeout(limit.saturating_sub(t0.elapsed())).unwrap_or_else(|e| Err(match e { std::sync::mpsc::RecvTimeoutError::Timeout => format!("did not return within {} s", limit.as_secs()), _ => "panic (thread)".into() })) {
+            Ok(_) => { ok += 1; println!("VERIF-N id=N/n_c14_pipeline/known_input:{} status=ok cases=1 distinct=1 bound=\"known-input replay of {}/{}\"", n.trim_end_matches(".sierra"), dir, n); }
             Err(msg) => println!(
                 "VERIF-N id=N/n_c14_pipeline/known_input:{} status=fail key=\"{}\" input=\"{}/{}\" detail=\"real pipeline panicked: {}\" bound=\"known-input replay\"",
                 n.trim_end_matches(".sierra"), n, dir, n, msg.replace('"', "'").replace('\n', " ")
